@@ -71,7 +71,7 @@ async def agcm(tag: str):
         yield tag
 
 
-def plain_fn(*a: Any) -> None:
+def plain_fn(*a: Any, **k: Any) -> None:
     return None
 
 
